@@ -214,6 +214,18 @@ func buildObjPool(size int) *objPool {
 			p.add(geojson.NewMultiPoint([]geometry.Point{q}), "MultiPoint", nil)
 			p.add(geojson.NewGeometryCollection([]geojson.Object{geojson.NewPoint(q)}), "GeometryCollection", nil)
 			p.add(geojson.NewFeatureCollection([]geojson.Object{geojson.NewFeature(geojson.NewSimplePoint(q), "")}), "FeatureCollection", nil)
+			// the same place as a tiny rectangle, as the equivalent five-point polygon and as a short line
+			rc := geometry.Rect{Min: geometry.Point{X: q.X - 1e-5, Y: q.Y - 1e-5}, Max: geometry.Point{X: q.X + 1e-5, Y: q.Y + 1e-5}}
+			ri := p.add(geojson.NewRect(rc), "Rect", rc)
+			ring := []geometry.Point{rc.Min, {X: rc.Max.X, Y: rc.Min.Y}, rc.Max, {X: rc.Min.X, Y: rc.Max.Y}, rc.Min}
+			pg := geometry.NewPoly(ring, nil, nil)
+			pi := p.add(geojson.NewPolygon(pg), "Polygon", pg)
+			p.equiv(ri, pi)
+			p.equiv(pi, ri)
+			fr := p.add(geojson.NewFeature(geojson.NewRect(rc), ""), "Feature", nil)
+			p.equiv(fr, ri)
+			ln := geometry.NewLine([]geometry.Point{rc.Min, rc.Max}, nil)
+			p.add(geojson.NewLineString(ln), "LineString", ln)
 		}
 	}
 	return p
